@@ -455,27 +455,19 @@ class TriMesh(PointCloud):
         # (e.g. [0, 0, 0, 1, 1, 1, ...])
         tri_indices = np.arange(self.trilist.shape[0]).repeat(3)
 
-        # Loop over the edges to find the "lonely" triangles that have an edge
-        # that isn't shared with another triangle. Due to the definition of a
-        # triangle and the careful ordering chosen above, each edge will be
-        # seen either exactly once or exactly twice.
-        # Note that some triangles may appear more than once as it's possible
-        # for a triangle to only share one edge with the rest of the mesh (so
-        # it would have two "lonely" edges
-        lonely_triangles = {}
-        for edge, t_i in zip(edge_indices, tri_indices):
-            # Sorted the edge indices since we may see an edge (0, 1) and then
-            # see it again as (1, 0) when in fact that is the same edge
-            sorted_edge = tuple(sorted(edge))
-            if sorted_edge not in lonely_triangles:
-                lonely_triangles[sorted_edge] = t_i
-            else:
-                # If we've already seen the edge the we will never see it again
-                # so we can just remove it from the candidate set
-                del lonely_triangles[sorted_edge]
+        # Count how many triangles own each (undirected) edge. An edge may be
+        # seen once (boundary), twice (manifold interior) or more often
+        # (non-manifold), so we count rather than toggle.
+        edge_counts = {}
+        sorted_edges = [tuple(sorted(edge)) for edge in edge_indices]
+        for sorted_edge in sorted_edges:
+            edge_counts[sorted_edge] = edge_counts.get(sorted_edge, 0) + 1
 
+        # A triangle is on the boundary iff it owns an edge nobody else owns
         mask = np.zeros(self.n_tris, dtype=bool)
-        mask[np.array(list(lonely_triangles.values()))] = True
+        for sorted_edge, t_i in zip(sorted_edges, tri_indices):
+            if edge_counts[sorted_edge] == 1:
+                mask[t_i] = True
         return mask
 
     def edge_vectors(self):
